@@ -553,3 +553,26 @@ pub fn boundary_corpus() -> Vec<Script> {
     }
     out
 }
+
+/// Number of streams in the big boundary family (see `big_boundary_stream`).
+pub const N_BIG_BOUNDARY: usize = 9 * 5 * 3;
+
+/// Streams whose *total* length sits within two bytes of a multiple of 256 far from the start:
+/// 256 x {127, 128, 129, 255, 256, 257, 511, 512, 513} + {-2..=2} bytes (around 2^15, 2^16, 2^17 and
+/// one growth step either side), as one frame, as a small frame followed by a big one, and as a big
+/// frame followed by a small one. Built on demand (they are up to 131 kB each).
+pub fn big_boundary_stream(j: usize) -> Script {
+    let j = j % N_BIG_BOUNDARY;
+    let m = [127usize, 128, 129, 255, 256, 257, 511, 512, 513][j % 9];
+    let d = (j / 9) % 5;
+    let shape = j / 45;
+    let total = 256 * m + d - 2; // bytes in the stream, terminators included
+    let k = 0usize;
+    let base = valid_frame(k, 0, 0, 3).len();
+    let small = valid_frame(k, 0, 7, 3);
+    match shape {
+        0 => Script { kinds: vec![k], frames: vec![valid_frame(k, 0, total - 1 - base, 3)] },
+        1 => Script { kinds: vec![k, k], frames: vec![small.clone(), valid_frame(k, 0, total - (small.len() + 1) - 1 - base, 3)] },
+        _ => Script { kinds: vec![k, k], frames: vec![valid_frame(k, 0, total - (small.len() + 1) - 1 - base, 3), small] },
+    }
+}
